@@ -22,11 +22,15 @@ from checks import serial_findings as sf  # noqa: E402
 
 
 def scenario(name, cfg=None, res=(True, False), rs=(False,), dtm=(0,), fd=(False,), fc=(False,), mc=True,
-             explore=None, gen=None, rand=0, live=False, mc_workers=4, skip_inv=()):
+             explore=None, gen=None, rand=0, live=False, mc_workers=4, skip_inv=(), view='viewCore', constraints=(),
+             real=None, mc_timeout=900, max_len=60):
+    """one scenario = one model configuration + oracle domain, explored by MC / GEN / exploration of the real code /
+    random scripts / unscripted runs of real problems (real = list of dicts overriding problem, restol, ...)"""
     c = dict(ds.DEFAULT_CFG)
     c.update(cfg or {})
     return dict(name=name, cfg=c, dom=dict(res=res, rs=rs, dtm=dtm, fd=fd, fc=fc), mc=mc, explore=explore, gen=gen,
-                rand=rand, live=live, mc_workers=mc_workers, skip_inv=skip_inv)
+                rand=rand, live=live, mc_workers=mc_workers, skip_inv=skip_inv, view=view, constraints=constraints,
+                real=real or [], mc_timeout=mc_timeout, max_len=max_len)
 
 
 def run_property(prop, scenarios, tier, seed, extra_assumptions=()):
@@ -57,7 +61,9 @@ def run_property(prop, scenarios, tier, seed, extra_assumptions=()):
                 if sc['mc']:
                     invs = ['TypeOK'] + [i for i in eng.ALL_INVARIANTS if eng.INV_PROPERTY.get(i) == prop and i not in sc['skip_inv']]
                     mc_async.append((sc, 'mc', mcpool.apply_async(eng.model_check, (cfg, oc, invs, wd + '_mc'),
-                                                                  dict(workers=sc['mc_workers'], action_props=(['DoneStable'] if prop == 'C07' else [])))))
+                                                                  dict(workers=sc['mc_workers'], action_props=(['DoneStable'] if prop == 'C07' else []),
+                                                                       view=sc['view'], constraints=sc['constraints'],
+                                                                       timeout=sc['mc_timeout']))))
                 if sc['live']:
                     mc_async.append((sc, 'live', mcpool.apply_async(eng.model_check, (cfg, oc, [], wd + '_live'),
                                                                     dict(workers=2, liveness=True))))
@@ -70,7 +76,7 @@ def run_property(prop, scenarios, tier, seed, extra_assumptions=()):
                 opts = ex.oracle_options(**dom)
                 if sc['explore']:
                     t0 = time.time()
-                    got, trunc = ex.explore(cfg, opts, pool, max_runs=sc['explore'], seed=seed)
+                    got, trunc = ex.explore(cfg, opts, pool, max_runs=sc['explore'], seed=seed, max_len=sc['max_len'])
                     for r in got:
                         tid += 1
                         r['tid'] = tid
@@ -80,7 +86,8 @@ def run_property(prop, scenarios, tier, seed, extra_assumptions=()):
                                                                   wall_s=round(time.time() - t0, 1)))
                 if sc['gen']:
                     gens, gres = eng.generate(cfg, oc, wd + '_gen', workers=4,
-                                              simulate=None if sc['gen'] == 'all' else sc['gen'], seed=seed)
+                                              simulate=None if sc['gen'] == 'all' else sc['gen'], seed=seed,
+                                              constraints=sc['constraints'])
                     rep.add_tlc(gres, f"GEN {sc['name']}")
                     if not gres.ok and not gens:
                         rep.machinery.append(f"GEN {sc['name']} failed: {gres.violation} {gres.error_text[:300]}")
@@ -100,6 +107,12 @@ def run_property(prop, scenarios, tier, seed, extra_assumptions=()):
                     for r in got:
                         r['origin'] = 'random'
                     runs += got
+                for extra in sc['real']:
+                    tid += 1
+                    r = ds.run_one(dict(cfg, **extra), None, tid=tid)
+                    r['origin'] = 'real-problem'
+                    r['cfg'] = cfg
+                    runs.append(r)
                 good = []
                 for r in runs:
                     if r['errors']:
